@@ -21,7 +21,7 @@ import ast
 from engine.cfg import expand_aliases, call_name, cfg_of
 from engine.errors import AnalysisError
 from engine.repo import walk_no_nested
-from engine.util import calls_in, local_assignments, unparse
+from engine.util import calls_in, local_assignments, unparse, xsrc
 
 from .c11 import index_key_attrs
 
@@ -289,7 +289,7 @@ def run(ctx):  # noqa: C901, PLR0912, PLR0915
     # ------------------------------------------------------------------ R5
     mkc = repo.func(f'{TR}.ContextStateTransaction.mk_context_state')
     g = cfg_of(mkc)
-    src = unparse(mkc.node)
+    src = xsrc(mkc)
     look = [n for n, c in g.nodes_calling('get_one') if 'context_states.handle' in unparse(c.func)]
     rz = [n for n in g.nodes if n.kind == 'raisestmt' and any(txt == 'old_state_container is None' and pol is False
                                                               for txt, pol in g.facts_at(n))]
@@ -306,13 +306,13 @@ def run(ctx):  # noqa: C901, PLR0912, PLR0915
     ctx.ob('C10.R5', 'generated handles', 'context_state_handle or uuid.uuid4().hex' in src,
            'without an explicit handle a uuid4 is generated', fi=mkc)
     ne = repo.func('sdc11073.mdib.providermdib.ProviderEntityGetter.new_entity')
-    src = unparse(ne.node)
+    src = xsrc(ne)
     ok = 'handle in self._mdib.descriptions.handle' in src and 'handle in self._mdib.context_states.handle' in src and \
         any(isinstance(n, ast.Raise) for n in walk_no_nested(ne.node))
     ctx.ob('C10.R5', 'new_entity checks both indices', ok, 'new_entity rejects a handle known as descriptor or as '
            'context state', fi=ne)
     ns = repo.func('sdc11073.mdib.mdibbase.MultiStateEntity.new_state')
-    src = unparse(ns.node)
+    src = xsrc(ns)
     ctx.ob('C10.R5', 'new_state', 'state_handle in self.states' in src and 'state_handle or uuid.uuid4().hex' in src,
            'MultiStateEntity.new_state rejects a duplicate handle inside the entity and generates uuid4 otherwise', fi=ns)
     keys = index_key_attrs(repo)
@@ -322,7 +322,7 @@ def run(ctx):  # noqa: C901, PLR0912, PLR0915
     ctx.ob('C10.R5', 'unique handle indices', ok, 'both handle indices are declared unique (UIndexDefinition on Handle)',
            where='sdc11073.mdib.mdibbase', witness={'context_states.handle': u1, 'descriptions.handle': u2})
     tp = repo.func(CP)
-    ctx.ob('C10.R5', 'handler generates handles for new states', 'proposed_st.Handle = uuid.uuid4().hex' in unparse(tp.node),
+    ctx.ob('C10.R5', 'handler generates handles for new states', 'proposed_st.Handle = uuid.uuid4().hex' in xsrc(tp),
            'the SetContextState handler replaces the placeholder handle of a new state by a uuid4', fi=tp)
 
 
